@@ -154,9 +154,9 @@ def _reader_world(model, ch, entry, checks_end=(CHECK_OK,), n_rows_options=(0, 1
     interp = Interp(model, ch, stubs=stubs)
     world = World(model, interp, ch)
     checks = [world.recording_check(0, end_outcomes=checks_end), world.recording_check(1, end_outcomes=checks_end)]
-    header = Sym("h")
+    header = Sym("h", integer=True)
     limit_kind = ch.choose("limit", ["none", "n"])
-    limit = None if limit_kind == "none" else Sym("n")
+    limit = None if limit_kind == "none" else Sym("n", integer=True)
     # API contract: header >= 0 (DataFormat.header setter), limit >= 0 (asserted by Reader / rows / validate)
     interp.order.declare(("s", "h"), ">=", ("c", 0))
     interp.order.declare(("s", "n"), ">=", ("c", 0))
@@ -480,7 +480,7 @@ def _writer_world(model, ch, format_name="delimited", interp=None, world=None, c
     interp.stubs[VALIDATOR + ".validate_row"] = validate_row_stub
     install_writer_externals(interp)
     if header is None:
-        header = Sym("h")
+        header = Sym("h", integer=True)
         interp.order.declare(("s", "h"), ">=", ("c", 0))
     if cid is None:
         checks = [world.recording_check(0), world.recording_check(1)]
